@@ -121,8 +121,13 @@ pub fn ref_lex(text: &str) -> Vec<RefToken> {
                         return out;
                     }
                     if b[i] == b'\\' {
-                        i += 2; // an escape consumes the next character
-                        continue;
+                        // the five escapes of the reference; anything else is not a valid literal
+                        if i + 1 < n && matches!(b[i + 1], b'\\' | b'\'' | b'"' | b't' | b'n') {
+                            i += 2;
+                            continue;
+                        }
+                        out.push(tok(RefKind::Invalid("invalid escape"), i + 1));
+                        return out;
                     }
                     if b[i] == b'"' {
                         i += 1;
